@@ -82,6 +82,10 @@ pub fn check_value(loc: &Locale, case: &Value, st: &mut Stats, mode: Count) {
     netted(st, || case.clone(), crate::values::case_size(case), |st| check_value_inner(loc, case, st, mode));
 }
 
+thread_local! {
+    static REUSED: std::cell::RefCell<String> = std::cell::RefCell::new(String::with_capacity(4096));
+}
+
 fn check_value_inner(loc: &Locale, case: &Value, st: &mut Stats, mode: Count) {
     st.eval();
     let size = case_size(case);
@@ -105,6 +109,19 @@ fn check_value_inner(loc: &Locale, case: &Value, st: &mut Stats, mode: Count) {
     let (l2, s2, r2, v2, ext) = loc.clone().into_parts();
     if l2 != l || s2 != s || r2 != r || v2 != v || ext != loc.extensions.to_string() {
         st.fail("locale:into_parts-fields", case.clone(), size, format!("ext string {ext:?}"));
+    }
+    // the same text once more from a buffer that every case on this thread re-uses (same address, often
+    // the same length, different text): a parse memo keyed on the identity of the input would answer
+    // with the previous case's map
+    let reused = REUSED.with(|b| {
+        let mut b = b.borrow_mut();
+        b.clear();
+        b.push_str(&ext);
+        guard(|| ExtensionsMap::from_str(&b))
+    });
+    match &reused {
+        Ok(Ok(e2)) if e2.to_string() == ext && *e2 == loc.extensions => {}
+        other => st.fail("locale:extension-string-from-reused-buffer", case.clone(), size, format!("{ext:?} -> {:?}", other.as_ref().map(|r| r.as_ref().map(|e| e.to_string()).map_err(|e| format!("{e:?}"))).map_err(|p| format!("{p:?}")))),
     }
     match guard(|| ExtensionsMap::from_str(&ext)) {
         Ok(Ok(e)) => {
